@@ -209,7 +209,7 @@ class G:
             self.emit("%s %s %d" % (op, x, self.val_near(keys)))
         elif op == "addmany" and r.random() < 0.3:
             k = r.choice(list(keys)) if keys else self.key()
-            self.emit("addmanyfrom %s %d %d" % (x, k * CH if r.random() < 0.7 else self.val_near(keys), r.choice([1, 3, 10, 40])))
+            self.emit("addmanyfrom %s %d %d %d" % (x, k * CH if r.random() < 0.7 else self.val_near(keys), r.choice([1, 3, 10, 40]), r.choice([1, 2, 3, 257, 1543])))
             self.count("histop:addmanyfrom")
         elif op == "addmany":
             n = r.choice([1, 2, 5, 30])
